@@ -49,11 +49,11 @@ func genCmd(c *ev.Case) (string, string) {
 		return []string{"null", " null", "true", "false", "0", "-1.5e3", `""`, `"x"`, "[]", "[null]", `[{"username":"u"}]`, "{}", `{"a":{}}`}[r.Intn(13)], "json-other"
 	case 7:
 		// objects with wrong types / odd versions
-		v := []string{`"8.1"`, `"08.001"`, `"65535.65535"`, `"65536.1"`, `"8.65537"`, `"99999999999999999999.1"`, `"8"`, `"8.1.2"`, `" 8.1"`, `"8.1 "`, `"-1.0"`, `"+8.1"`, `"８.１"`, `""`, `8.1`, `null`, `"1e1.0"`, `"0x8.1"`}[r.Intn(18)]
+		v := []string{`"8.1"`, `"08.001"`, `"65535.65535"`, `"65536.1"`, `"8.65537"`, `"99999999999999999999.1"`, `"8"`, `"8.1.2"`, `" 8.1"`, `"8.1 "`, `"-1.0"`, `"+8.1"`, `"８.１"`, `""`, `8.1`, `null`, `"1e1.0"`, `"0x8.1"`, `"811"`, `"8x1"`, `"8-1"`, `"1 2"`, `"12345"`, `"8,1"`}[r.Intn(24)]
 		u := []string{`"u"`, `""`, `null`, `1`, `"` + "root" + `"`}[r.Intn(5)]
 		return fmt.Sprintf(`{"username":%s,"hostname":"h","sshClientVersion":%s,"ifVer":7}`, u, v), "json-versions"
 	case 8:
-		v := []string{"8.1", "08.001", "65535.65535", "65536.1", "8.65537", "99999999999999999999.1", "8", "8.1.2", "-1.0", "+8.1", "", "x"}[r.Intn(12)]
+		v := []string{"8.1", "08.001", "65535.65535", "65536.1", "8.65537", "99999999999999999999.1", "8", "8.1.2", "-1.0", "+8.1", "", "x", "811", "8x1", "8-1", "12345", "8,1", "8_1"}[r.Intn(18)]
 		return fmt.Sprintf("IFVer=6 SSHClientVersion=%s req=%s@%s", v, gen.Ident(r, 4), gen.Ident(r, 5)), "legacy-versions"
 	case 9:
 		return "", "empty"
